@@ -1,5 +1,6 @@
 import Norad.Base.Proto
 import Driver.C11
+import Driver.C16
 /-!
 # Line-protocol driver
 
@@ -12,6 +13,9 @@ open Proto
 def dispatch (inp obs : List String) : Verdict :=
   match inp.head? with
   | some "C11" => Driver.C11.run inp obs
+  | some "C16" => Driver.C16.run inp obs
+  | some "C16path" => Driver.C16.runPath inp obs
+  | some "C16pp" => Driver.C16.runPair inp obs
   | _ => { agree := false, model := "unknown-model" }
 
 partial def loop (h : IO.FS.Stream) (out : IO.FS.Stream) : IO Unit := do
